@@ -617,6 +617,20 @@ func main() {
 										if _, err := wsflate.DecompressFrameBuffer(&b, g); err == nil {
 											return explore.Failf("non-final-frame-decompressed", "")
 										}
+										// a non-final frame is refused whatever its bits say: the helpers work on whole
+										// messages only, and a fragment without RSV1 may well belong to a compressed one
+										if _, err := wsflate.DecompressFrameBuffer(&b, f); err == nil {
+											return explore.Failf("non-final-frame-decompressed:rsv1-clear", "DecompressFrameBuffer")
+										}
+										if _, err := wsflate.DecompressFrame(f); err == nil {
+											return explore.Failf("non-final-frame-decompressed:rsv1-clear", "DecompressFrame")
+										}
+										if _, err := wsflate.DefaultHelper.DecompressFrame(g); err == nil {
+											return explore.Failf("non-final-frame-decompressed", "Helper.DecompressFrame")
+										}
+										if _, err := wsflate.DefaultHelper.CompressFrame(g); err == nil {
+											return explore.Failf("non-final-frame-compressed", "Helper.CompressFrame with RSV1 already set")
+										}
 										t.Outcome("non-final-refused")
 										return nil
 									}
